@@ -223,6 +223,76 @@ func DirectedRevDown(r *vh.Run, rng *vh.RNG, name string) {
 	History(r, name, t, ids, Declare(t, ids), sched, chain.NewMemDB(), "directed:rev-down")
 }
 
+// DirectedSameTxnBothForks: block A confirms a set of transactions T and is committed (its own
+// AddBlocks call ends with a flush); then ONE AddBlocks call reorgs to a sibling A' that confirms
+// the very same transactions, followed by blocks that spend / revise / prove what T created.  Inside
+// that one flush window every element of T is deleted (revert of A), written again (A') and deleted
+// again (spent) — on top of a value that is already committed.  Run on every backend, in particular
+// the write cache over MemDB and over a Bolt file.
+func DirectedSameTxnBothForks(r *vh.Run, rng *vh.RNG, name string) {
+	net := chainx.NewNet(rng, 1000, 2000, 2)
+	t := chainx.NewTree(net)
+	tip := 0
+	var a, a2, last int
+	msg := Guarded(func() {
+		for i := 0; i < 3; i++ {
+			tip = t.Mine(rng, tip, chainx.Spec{Kinds: []string{"v1pay", "v1fc"}, Dt: 1})
+		}
+		a = t.Mine(rng, tip, chainx.Spec{Kinds: []string{"v1pay", "v1pay", "v1fc3", "v1sf", "v1eph"}, Dt: 1})
+		var err error
+		a2, err = t.MineWith(rng, tip, t.Blocks[a].Block.Transactions, nil, 2)
+		if err != nil {
+			panic(err)
+		}
+		last = a2
+		for i := 0; i < 3; i++ {
+			last = t.Mine(rng, last, chainx.Spec{Kinds: []string{"v1pay", "v1pay", "v1pay", "v1pay", "v1sf", "v1proof", "v1rev", "v1revw"}, Dt: 1})
+		}
+	})
+	if msg != "" {
+		c := &vh.Case{Name: name}
+		c.Oracle("generator-block-rejected", "%s", firstLine(msg))
+		r.Add(c)
+		return
+	}
+	// how many elements created by T are spent again on the new fork (shape check, from the twins' diffs)
+	ids := NewIDs()
+	decls := Declare(t, ids)
+	created := map[int]bool{}
+	for _, d := range decls[a].Diffs {
+		if d.Created && !d.Spent {
+			created[d.ID] = true
+		}
+	}
+	respent := 0
+	for x := last; x != a2; x = t.Blocks[x].Parent {
+		for _, d := range decls[x].Diffs {
+			if d.Spent && !d.Created && created[d.ID] {
+				respent++
+			}
+		}
+	}
+	sched := [][]int{pathTo(t, a), append([]int{a2}, pathTo(t, last)[len(pathTo(t, a2)):]...)}
+	for _, kind := range []string{"mem", "cache", "cachebolt", "bolt"} {
+		dir, err := os.MkdirTemp("", "c02-*")
+		if err != nil {
+			panic(err)
+		}
+		be, err := kvx.Open(kind, dir)
+		if err != nil {
+			panic(err)
+		}
+		rig := History(r, name+"/"+kind, t, ids, decls, sched, be.DB, "directed:same-txn-both-forks", "backend:"+kind, fmt.Sprintf("respent:%d", min(respent, 3)))
+		be.Close()
+		os.RemoveAll(dir)
+		if rig != nil && (rig.Reverts == 0 || respent == 0) {
+			c := &vh.Case{Name: name + "/" + kind + "/shape"}
+			c.Oracle("generator-shape", "the directed history reverted %d blocks and re-spent %d elements of the repeated transactions", rig.Reverts, respent)
+			r.Add(c)
+		}
+	}
+}
+
 // DirectedRequireHeight: a v1 contract whose window ends exactly at the require height; the chain
 // must advance past it (regression of the SupplementTipBlock guard, fixed in 98a2b29).
 func DirectedRequireHeight(r *vh.Run, rng *vh.RNG, name string) {
@@ -627,6 +697,10 @@ func Run(r *vh.Run) {
 		wrng := rng.Fork()
 		Safely(r, "directed-rev-down", func() { DirectedRevDown(r, wrng, fmt.Sprintf("directed-rev-down%d", i)) })
 	}
+	for i := 0; i < r.Pick(2, 10); i++ {
+		srng := rng.Fork()
+		Safely(r, "same-txn-both-forks", func() { DirectedSameTxnBothForks(r, srng, fmt.Sprintf("same-txn-both-forks%d", i)) })
+	}
 	drng := rng.Fork()
 	Safely(r, "directed-require-height", func() { DirectedRequireHeight(r, drng, "directed-require-height") })
 	for i := 0; i < r.Pick(1, 4); i++ {
@@ -636,7 +710,7 @@ func Run(r *vh.Run) {
 	}
 	// one history on a real Bolt file and one on CacheDB, so that the dump and the store run on
 	// every backend
-	for _, kind := range []string{"cache", "bolt"} {
+	for _, kind := range []string{"cache", "bolt", "cachebolt"} {
 		trng := rng.Fork()
 		Safely(r, "backend-"+kind, func() {
 			dir, err := os.MkdirTemp("", "c02-*")
